@@ -25,4 +25,4 @@ MANIFEST = {
 
 def run(ctx):
     ctx.gen_lean()          # Tie A: regenerate lean/UvModel/Generated from /repo; GenEq ties HandleKernels to it
-    loopsim.drive(ctx, "C01", ["UvModel.Props.C01", "UvModel.GenEq"], ["C01", "C01", "C02", "C03"], 260, 6000)
+    loopsim.drive(ctx, "C01", ["UvModel.Props.C01", "UvModel.GenEq"], ["C01", "C01", "C02", "C03"], 900, 12000)
